@@ -107,11 +107,20 @@ def callMutating : Call → Bool
   | .openFile _ f _ => MFS.accessMode f != 0 || hasFlag f O_CREATE
   | _ => true
 
+/-- A *crash marker* in the fault plan: a fault whose method is `crashMethod` refuses every
+primitive call issued once `occ` calls have been logged — the process died at that point and
+nothing reaches the disk any more, so the disk stays frozen in its state at the crash.  (Used by
+the crash-point theorems only; the harness never plans it.) -/
+def crashMethod : String := "*crash*"
+
+def crashed (w : World) : Bool :=
+  w.faults.any (fun f => f.sig.method = crashMethod && f.occ ≤ w.trace.length)
+
 /-- count this occurrence of `sig`, log it, and tell whether the fault plan fails it -/
 def account (sig : Sig) (mutating : Bool) : World → World × Bool := fun w =>
   let occ := (w.seen.lookup sig).getD 0
   let seen' := (sig, occ + 1) :: w.seen.filter (fun p => p.1 ≠ sig)
-  let faulted := w.faults.any (fun f => f.sig = sig && f.occ = occ)
+  let faulted := w.faults.any (fun f => f.sig = sig && f.occ = occ) || crashed w
   ({ w with seen := seen', trace := { sig := sig, failed := faulted, mutating := mutating } :: w.trace }, faulted)
 
 /-- a Chtimes whose target is a time stamped during the case is invisible: whether two "now"s
@@ -127,7 +136,7 @@ def execCall (cfg : Cfg) (side : Side) (c : Call) : M Ret := fun w =>
 
 /-- a path-taking primitive call on `side` -/
 def primCall (cfg : Cfg) (side : Side) (c : Call) : M Ret := fun w =>
-  if isGhost c then execCall cfg side c w
+  if isGhost c then (if crashed w then (w, .error .io) else execCall cfg side c w)
   else
     match account { side := side, method := callMethod c, args := callArgs c } (callMutating c) w with
     | (w1, true) => (w1, .error .io)
